@@ -1,4 +1,5 @@
 import Cvise.Proofs.DriverAccept
+import Cvise.Proofs.DriverFmt
 /-! C01: the files are always the original or a joint content on which an invocation of the test exited 0 -/
 namespace Cvise.D
 variable {C σ : Type} [DecidableEq C] [Inhabited σ] [Inhabited C]
@@ -11,7 +12,7 @@ def invExit (W : World C) (joint : List C) (rid ord : Nat) : Exit :=
 
 /-- the property of C01 for one directory state -/
 def SafeDisk (W : World C) (orig d : List C) : Prop :=
-  d = orig ∨ ∃ rid ord, invExit W d rid ord = .code 0
+  d = orig ∨ (∃ rid ord, invExit W d rid ord = .code 0) ∨ W.test d = .code 0      -- last: a sanity check on exactly `d`
 
 theorem envOf_exit (W : World C) (P : PassI C σ) (disk : List C) (k : Nat) (cur : C) (s : σ) (rid i : Nat)
     (h : (envOf W P disk k cur s rid i).pr = .ok) (h0 : (envOf W P disk k cur s rid i).exit = some (.code 0)) :
@@ -62,7 +63,7 @@ theorem fileLoop_safe (cfg : Cfg) (W : World C) (dn : Sched) (P : PassI C σ) (o
         have hacc := roundLoop_sound cfg W.size P.key _ _ _ _ _ _ _ _ _ _ _ hr
         have hiff := (isAccept_iff cfg W.size _ _).mp hacc
         have hsafe : SafeDisk W orig (x.disk.set k (envOf W P x.disk k (x.disk.getD k default) s rid i).cand) :=
-          Or.inr ⟨rid, i+1, envOf_exit W P x.disk k _ s rid i hiff.1 hiff.2.1⟩
+          Or.inr (Or.inl ⟨rid, i+1, envOf_exit W P x.disk k _ s rid i hiff.1 hiff.2.1⟩)
         split
         · simp only [LRes.st]; exact ⟨hsafe, (by first | trivial | rfl), Or.inr ⟨_, rfl⟩⟩
         · split
@@ -115,9 +116,23 @@ theorem newLoop_safe (cfg : Cfg) (W : World C) (dn : Sched) (P : PassI C σ) (or
     let y := LRes.st (newLoop cfg W dn P k fuel rid x before)
     SafeDisk W orig y.disk ∧ y.cache = x.cache ∧ DiskRel k x.disk y.disk := by
   unfold newLoop
-  cases P.new before with
-  | none => exact ⟨hx, rfl, Or.inl rfl⟩
-  | some s => exact fileLoop_safe cfg W dn P orig k _ fuel rid s 0 x hx
+  have hf := fmtStep_frame W P x k before
+  have hd := fmtStep_disk W P x k before
+  have hsafe : SafeDisk W orig (fmtStep W P x k before).1.disk := by
+    rcases hd with h | ⟨c, h, ht⟩
+    · rw [h]; exact hx
+    · rw [h]; exact Or.inr (Or.inr ht)
+  have hrel : DiskRel k x.disk (fmtStep W P x k before).1.disk := by
+    rcases hd with h | ⟨c, h, _⟩
+    · exact Or.inl h
+    · exact Or.inr ⟨c, h⟩
+  split
+  · exact ⟨hsafe, hf.2.1, hrel⟩
+  · split
+    · exact ⟨hsafe, hf.2.1, hrel⟩
+    · rename_i s _
+      have := fileLoop_safe cfg W dn P orig k (W.size before) fuel rid s 0 (fmtStep W P x k before).1 hsafe
+      exact ⟨this.1, by rw [this.2.1, hf.2.1], DiskRel.trans hrel this.2.2⟩
 
 theorem fileStep_inv (cfg : Cfg) (hk : KeyOK cfg) (W : World C) (dn : Sched) (P : PassI C σ) (orig : List C) (fuel : Nat)
     (acc : LRes C) (k : Nat) (h : Inv cfg W orig (LRes.st acc)) :
